@@ -71,9 +71,15 @@ def isSpaceNB (c : Char) : Bool :=
 def isSpaceRE (c : Char) : Bool :=
   c == '\t' || c == '\n' || c == '\x0c' || c == '\r' || c == ' '
 
-/-- runes `locateKeyName` lets through: `_ . - [ ]`, `unicode.IsLetter`, `unicode.IsNumber` (ASCII on the domain) -/
+/-- `unicode.IsLetter(c) || unicode.IsNumber(c)` on the modelled domain: ASCII plus the three
+    sample code points U+00E9 (Ll), U+4E16 (Lo), U+00B2 (No); cross-checked against Go's tables
+    by `Gen.Dotenv.unicodeClass` / `unicode_classes_are_modelled` -/
+def isLetterOrNumber (c : Char) : Bool :=
+  c.isAlphanum || c == '\u00e9' || c == '\u4e16' || c == '\u00b2'
+
+/-- runes `locateKeyName` lets through: `_ . - [ ]`, letters and numbers -/
 def isKeyRune (c : Char) : Bool :=
-  c == '_' || c == '.' || c == '-' || c == '[' || c == ']' || c.isAlphanum
+  c == '_' || c == '.' || c == '-' || c == '[' || c == ']' || isLetterOrNumber c
 
 /-! ## checked Go slicing -/
 
@@ -172,9 +178,10 @@ def locateKey (src0 : Str) : Stage (Str × Str × Bool) :=
   | .noDelim =>
     if src.isEmpty then .ok (.error .zeroLength)
     else
-      match sliceFrom src 0 with
+      -- `if offset == 0 { key = src; offset = len(src); inherited = true }`: a bare key on the last line
+      match sliceFrom src src.length with
       | none => .error .keyRest
-      | some r => .ok (.ok ([], r.dropWhile isSpaceNB, false))
+      | some r => .ok (.ok (trimRightU src, r.dropWhile isSpaceNB, true))
   | .delim i inh =>
     match sliceTo src i with
     | none => .error .keySlice
@@ -319,7 +326,7 @@ def parseLoop : Nat → Str → Map → Env → POut
         | .error s => .panic s
         | .ok (.error e) => .err e out
         | .ok (.ok (key, left, inherited)) =>
-          if key.contains ' ' then .err .keySpace out
+          if key.any isSpaceU then .err .keySpace out
           else if inherited then
             match lookup key with
             | some v => parseLoop fuel left (put out key v) lookup
@@ -332,5 +339,27 @@ def parseLoop : Nat → Str → Map → Env → POut
 
 /-- `dotenv.UnmarshalWithLookup` -/
 def parse (src : Str) (lookup : Env) : POut := parseLoop (src.length + 2) src [] lookup
+
+/-! ## ParseWithLookup / GetEnvFromFile (`dotenv/godotenv.go`, `dotenv/env.go`) -/
+
+/-- `bytes.TrimPrefix(data, utf8BOM)` -/
+def stripBOM : Str → Str
+  | '\uFEFF' :: r => r
+  | s => s
+
+/-- `for k, v := range env { envMap[k] = v }` -/
+def mergeInto (m : Map) : Map → Map
+  | [] => m
+  | (k, v) :: r => mergeInto (put m k v) r
+
+/-- `dotenv.GetEnvFromFile` on the contents of the files: the caller's environment wins over
+    the variables of earlier files, which win over earlier lines of the current file -/
+def fromFiles (currentEnv : Env) : List Str → Map → POut
+  | [], m => .ok m
+  | f :: fs, m =>
+    match parse (stripBOM f) (envOf currentEnv m) with
+    | .ok env => fromFiles currentEnv fs (mergeInto m env)
+    | .err e _ => .err e m
+    | .panic s => .panic s
 
 end CV.Dotenv
